@@ -154,9 +154,12 @@ def run(ctx: Ctx):
         rejection_directed(ctx, runner)
     boundary(ctx, runner)
     runner.finish()
+    L.special_stream(ctx, ctx.scale(150, 3000), "squeeth.", reject_intact=True)
 
 
 def replay(ctx: Ctx, case) -> bool:
+    if case.get("special"):
+        return L.special_replay(case, "squeeth.", reject_intact=True)
     world = L.World(G.parse_spec(case["spec"]), G.parse_env(case["env"]))
     o = L.observe(world, G.parse_op(case["op"]), "replay")
     sub = Ctx(ctx.prop, ctx.tier, ctx.seed, False)
